@@ -249,7 +249,7 @@ def judge_set(ctx, shape, which, vals, value_kind, seed):
         ctx.violate_exc("set:raises", f"set:raises:{type(e).__name__}", e, spec=spec)
 
 
-STARTS = [0.0, 0.5, 3.0, 1000.0]
+STARTS = [0.0, 0.5, 3.0, 1000.0, -1.5]
 STEPS = [1.0, 0.5, 0.1, 0.01, 1 / 3, 1 / 44100, 7.3, 0.25, 1 / 22050, 1 / 48000, 0.003]
 
 
